@@ -7,6 +7,7 @@ from common import sx, q, jq, cname, ok
 from units import U
 
 ID = 'C16'
+ZERO_LABELS = True      # a share of the cases is asked with candidates numbered from 0 (harness/common.py LABEL_MODE)
 LEVEL = 'proof'
 # translator ties (tools/py2v.py typed method translator): unit of Gen/STATUS.json -> the file proving generated = model.
 # A unit the translator rejects falls back to the correspondence streams below on a denser grid (run.py records it in
